@@ -726,7 +726,14 @@ fn shape(depth: u32) -> BoxedStrategy<S> {
             1 => (b(prim2()), b(prim2()), coord(), size()).prop_map(|(a, bb, lo, h)| S::LoftZ(a, bb, lo, h)),
             2 => vec(i.clone(), 0..=4).prop_map(S::Union),
             2 => vec(i.clone(), 0..=4).prop_map(S::Intersection),
-            1 => (b(i.clone()), b(i.clone()), size()).prop_map(|(a, bb, r)| S::Blend(a, bb, r)),
+            1 => (
+                b(i.clone()),
+                b(i.clone()),
+                // also the boundary of the formula's domain: a radius of +-0 or
+                // below is a plain union
+                prop_oneof![8 => size(), 1 => Just(Fl(0.0)), 1 => Just(Fl(-0.0)), 1 => size().prop_map(|f| Fl(-f.0))],
+            )
+                .prop_map(|(a, bb, r)| S::Blend(a, bb, r)),
             2 => (b(i.clone()), b(i.clone())).prop_map(|(a, bb)| S::Difference(a, bb)),
             1 => b(i.clone()).prop_map(S::Inverse),
         ]
